@@ -8,13 +8,16 @@ import re as _re
 from codemodder.codetf import Change as _Change, ChangeSet as _ChangeSet, UnfixedFinding as _UnfixedFinding
 from pathlib import Path as _Path
 REG.spec_globals = {"Path": _Path, "fnmatch": _fnmatch, "cst": _cst, "os": _os, "re": _re, "Change": _Change, "ChangeSet": _ChangeSet,
-                    "UnfixedFinding": _UnfixedFinding}
+                    "UnfixedFinding": _UnfixedFinding, "CodeTFResult": __import__("codemodder.codetf", fromlist=["Result"]).Result,
+                    "update_finding_metadata": __import__("codemodder.utils.update_finding_metadata", fromlist=["x"]).update_finding_metadata}
 
 # ---- ghost state ---------------------------------------------------------------------------------
 REG.ghosts = {
     "fs": "map[Opaque, bytes]",          # content of every path (total map)
     "report_written": "bool",            # a CodeTF report file has been written completely during this call
     "last_run_status": "int",            # value returned by the last completed codemodder.run()
+    "pool_bounds": "list[int]",          # max_workers of every thread pool created (-1: unbounded / library default)
+    "events": "list[str]",               # ordered trace of codemod applications ("A:<id>") and dependency processing ("D:<id>")
 }
 
 # ---- dependencies -------------------------------------------------------------------------------------
@@ -114,3 +117,8 @@ record("codemodder.codemods.regex_transformer.SastRegexTransformerPipeline", kin
        bases=["codemodder.codemods.regex_transformer.RegexTransformerPipeline"])
 record("codemodder.codemods.xml_transformer.XMLTransformerPipeline", kind="ref", fields={"xml_transformer": "Opaque"},
        bases=["codemodder.codemods.base_transformer.BaseTransformerPipeline"])
+
+record("codemodder.codetf.Result", kind="val",
+       fields={"codemod": "str", "summary": "str", "description": "str", "detectionTool": "Opaque", "references": "Opaque",
+               "properties": "Opaque", "failedFiles": "list[str] | None", "changeset": "list[ChangeSet]",
+               "unfixedFindings": "list[UnfixedFinding] | None"})
